@@ -9,3 +9,4 @@ def run(ck):
     region.r6_4_normalisation(ck, P)
     region.r7_3_queries(ck, P)
     region.r7_4_compaction_cursors(ck, P)
+    region.r7_5_independent_clamps(ck, P)
